@@ -36,6 +36,7 @@ def parseOp : List String → Option Op
   | "getm" :: ks => do pure (.getm (← ks.mapM keyTok?))
   | ["read", f, a] => do pure (.read (← key? f a))
   | ["ismem", f, a] => do pure (.ismem (← key? f a))
+  | "allmem" :: ks => do pure (.allmem (← ks.mapM keyTok?))
   | ["fcall", f, a] => do pure (.fcall (← key? f a))
   | ["ffn", f] => do pure (.ffn (← nat? f))
   | ["fall"] => some .fall
